@@ -8,10 +8,10 @@ import vf, e2, asmx, cref
 from cref import INT, UINT, LONG, ULONG, CHAR, UCHAR, SHORT, USHORT, BOOL, conv, binop, unop
 
 LITS = {
-    INT: ["0", "1", "2", "7", "31", "32", "255", "65536", "2147483647", "(-1)", "(-2147483647 - 1)", "(-128)"],
-    UINT: ["0u", "1u", "31u", "2147483648u", "4294967295u", "65535u"],
-    LONG: ["0L", "3L", "4294967296L", "9223372036854775807L", "(-9223372036854775807L - 1)", "(-4294967297L)", "63L"],
-    ULONG: ["1UL", "9223372036854775808UL", "18446744073709551615UL", "4294967295UL", "64UL"],
+    INT: ["0", "1", "2", "7", "31", "32", "255", "65536", "2147483647", "(-1)", "(-2147483647 - 1)", "(-128)", "0x7fffffff", "0x10", "017"],
+    UINT: ["0u", "1u", "31u", "2147483648u", "4294967295u", "65535u", "0x80000000", "0xffffffff", "037777777777"],
+    LONG: ["0L", "3L", "4294967296L", "9223372036854775807L", "(-9223372036854775807L - 1)", "(-4294967297L)", "63L", "0x100000000", "2147483648"],
+    ULONG: ["1UL", "9223372036854775808UL", "18446744073709551615UL", "4294967295UL", "64UL", "0xffffffffffffffff", "0x8000000000000000"],
 }
 CASTS = [CHAR, UCHAR, SHORT, USHORT, INT, UINT, LONG, ULONG, BOOL]
 BIN = ["+", "-", "*", "/", "%", "&", "|", "^", "<<", ">>", "<", "<=", ">", ">=", "==", "!=", "&&", "||"]
@@ -21,6 +21,10 @@ UN = ["-", "~", "!", "+"]
 def litval(text, t):
     s = text.strip("()").replace(" ", "")
     py = s.rstrip("uUlL")
+    if py.startswith(("0x", "0X")):
+        return z3.BitVecVal(int(py, 16), t.bits)
+    if len(py) > 1 and py.startswith("0") and py.isdigit():
+        return z3.BitVecVal(int(py, 8), t.bits)
     if "-1" in s and s.startswith("-") and s.endswith("-1") and s.count("-") == 2:
         a = s[1:].split("-")[0].rstrip("uUlL")
         v = -int(a) - 1
@@ -43,8 +47,12 @@ def gen_expr(rnd, depth, counter):
         txt = rnd.choice(LITS[t])
         counter[0] += 1
         v = "v%d" % counter[0]
-        wt = LONG if t.signed else ULONG
-        return Expr(txt, v, ["%s %s = %s;" % (t.name, v, txt)], litval(txt, t), t, z3.BoolVal(True), pp=(conv(litval(txt, t), t, wt), wt, z3.BoolVal(True)))
+        # C11 6.10.1p4: in #if a constant has type intmax_t unless it has a u suffix or does not fit (then uintmax_t)
+        lv = litval(txt, t)
+        uval = z3.simplify(lv).as_long()
+        wt = ULONG if ("u" in txt.lower().replace("0x", "")) or (not t.signed and t.bits == 64 and uval >= 1 << 63) else LONG
+        ppv = conv(lv, t, wt) if t.signed else z3.ZeroExt(64 - t.bits, lv) if t.bits < 64 else lv
+        return Expr(txt, v, ["%s %s = %s;" % (t.name, v, txt)], lv, t, z3.BoolVal(True), pp=(ppv, wt, z3.BoolVal(True)))
     k = rnd.random()
     if k < 0.6:
         op = rnd.choice(BIN)
